@@ -32,7 +32,16 @@ C. / D. histories  use - edit - use [- edit - use]  on ONE settings object (C: p
    (assign | item assignment in place | Settings.load), of the carry (same object | deepcopy)
    and an optional refused call in between.  The last use is judged by the oracles of A / B.
 
-In A and B every call gets fresh recordings, fresh settings and fresh fft_settings dicts:
+E. many windows in one call: part A's cases and oracles with window counts around 256 and 512
+   (SPACE_E: 255, 256, 257, 300, 511, 512, 513 windows of 16 / 33 samples) crossed with the way the
+   energy is distributed over the positions in the call (PROFILES: gain ramp | the last seventh ten
+   times louder | the first seventh ten times louder | equal gains).  "For several windows it is the
+   average of the single-window densities" is quantified over all window counts; A stops at 3.
+   Oracles: Parseval (mean of the time-domain bookkeeping of every window), Welch (mean of the PSDs of
+   the same windows processed one at a time), amplitude scaling, smoothed PSD / diffuse field from the
+   unsmoothed PSDs of the same windows.  Violation keys carry the input class "many-windows".
+
+In A, B and E every call gets fresh recordings, fresh settings and fresh fft_settings dicts:
 process() tapers its inputs in place (C09) and writes the FFT length back.  In C and D the
 recordings are fresh for every use, the settings object is the one under test.
 """
@@ -89,6 +98,28 @@ SPACE_A = {
     "scale": [1.0, 10.0, -3.0, 1e-9, 1e-12, 1e9],
 }
 ROOT_DIMS_A = ("L", "dt", "sigs", "count", "fft")
+
+# part E: many windows in one call.  gain of window i of ``count`` windows (times the amplitude scale)
+PROFILES = {
+    "loud_tail": lambda i, count: 10.0 if i >= count - max(1, count // 7) else 1.0,
+    "ramp": lambda i, count: 1.0 + 0.5 * i,                 # the profile of parts A and C
+    "equal": lambda i, count: 1.0,                          # windows still differ: triple rotated by i
+    "loud_head": lambda i, count: 10.0 if i < max(1, count // 7) else 1.0,
+}
+SPACE_E = {
+    "count": [300, 255, 256, 257, 513, 511, 512],
+    "profile": ["loud_tail", "ramp", "equal", "loud_head"],
+    "L": [16, 33],
+    "dt": [0.01],
+    "sigs": ["S0", "P342"],
+    "fft": ["none", "default"],
+    "taper": [0.1, 0.0, 1.0],
+    "out": ["psd:off", "psd:konno_and_ohmachi", "diffuse:konno_and_ohmachi", "diffuse:parzen"],
+    "scale": [1.0, -3.0, 1e-9],
+}
+ROOT_DIMS_E = ("count", "profile", "L", "dt", "sigs", "fft")
+K_E = {"quick": 2, "thorough": 3}      # deviation bound of part E
+MANY = 16                               # a call with more windows than this is of the class "many-windows"
 
 RESPONSES = ("none", "flat", "flat_neg", "pz_highpass", "pz_lead", "geophone")
 SPACE_B = {
@@ -172,12 +203,13 @@ def ref_kernels():
 # ---------------------------------------------------------------------------
 # part A: helpers
 
-def window_arrays(sigs, i, L, scale):
-    """The three component arrays of window i: triple rotated by i, gain (1 + i/2) * scale."""
+def window_arrays(sigs, i, L, scale, gain=None):
+    """The three component arrays of window i: triple rotated by i, gain (1 + i/2) * scale
+    (or ``gain`` * scale: part E's energy profiles)."""
     trip = SIGSETS[sigs]
     r = i % 3
     rot = trip[r:] + trip[:r]
-    gain = (1.0 + 0.5 * i) * scale
+    gain = (1.0 + 0.5 * i if gain is None else gain) * scale
     return [A.sig_array(name, L) * (fac * gain) for name, fac in rot]
 
 
@@ -262,6 +294,11 @@ class RootA:
         f = self.fixed = root["fixed"]
         self.L, self.dt, self.sigs, self.count, self.fft = (f["L"], f["dt"], f["sigs"],
                                                            f["count"], f["fft"])
+        self.part = root.get("part", "A")
+        self.profile = f.get("profile", "ramp")
+        self.cls = "single-window" if self.count == 1 else ("multi-window" if self.count <= MANY
+                                                            else "many-windows")
+        self.wmean = {}          # many windows: (taper, scale) -> mean of the single-window PSDs
         self.always_welch = False    # part C: compare a single window with a fresh-object PSD too
         self.aux_ok = True           # part C: fresh-object calls with the same FFT length exist
         self.unsm = {}           # (taper, scale) -> unsmoothed PSD result of all windows
@@ -269,8 +306,11 @@ class RootA:
         self.diffuse1 = {}       # (taper, operator) -> diffuse-field amplitudes at scale 1
 
     # -- executions ----------------------------------------------------------
+    def window(self, i, scale):
+        return window_arrays(self.sigs, i, self.L, scale, PROFILES[self.profile](i, self.count))
+
     def windows(self, scale):
-        return [window_arrays(self.sigs, i, self.L, scale) for i in range(self.count)]
+        return [self.window(i, scale) for i in range(self.count)]
 
     def run(self, windows, taper, out):
         self.ctx.count("transitions")
@@ -291,11 +331,55 @@ class RootA:
         key = (i, taper, scale)
         if key not in self.single:
             try:
-                res, n = self.run([window_arrays(self.sigs, i, self.L, scale)], taper, "psd:off")
+                res, n = self.run([self.window(i, scale)], taper, "psd:off")
                 self.single[key] = dict((c, np.array(res[c].amplitude)) for c in COMPONENTS)
             except Exception as e:      # noqa: BLE001
                 self.single[key] = e
         return self.single[key]
+
+    def welch_mean(self, taper, scale, nb):
+        """{component: mean of the PSDs of the windows processed one at a time} or the exception of a
+        single-window call.  Few windows: from the cache of single-window results; many windows: streamed
+        (nothing but the mean is kept)."""
+        if self.count <= MANY:
+            singles = [self.single_window(i, taper, scale) for i in range(self.count)]
+            bad = [s for s in singles if isinstance(s, Exception)]
+            if bad:
+                return bad[0]
+            return dict((c, np.asarray(RP.mean_of([s[c] for s in singles]) if nb <= 2048
+                                       else np.sum([s[c] for s in singles], axis=0) / len(singles)))
+                        for c in COMPONENTS)
+        key = (taper, scale)
+        if key not in self.wmean:
+            try:
+                small = dict((c, []) for c in COMPONENTS)
+                acc = half = None
+                for i in range(self.count):
+                    res, _ = self.run([self.window(i, scale)], taper, "psd:off")
+                    if nb <= 2048:
+                        for c in COMPONENTS:
+                            small[c].append(np.array(res[c].amplitude, dtype=float))
+                    else:
+                        row = np.array([res[c].amplitude for c in COMPONENTS], dtype=float)
+                        acc = row if acc is None else acc + row
+                    if nb > 2048 and i == self.count // 2 - 1:
+                        half = acc / (i + 1)
+                if nb <= 2048:
+                    mean = dict((c, np.asarray(RP.mean_of(small[c]))) for c in COMPONENTS)
+                    h = self.count // 2
+                    halfd = dict((c, np.asarray(RP.mean_of(small[c][:h]))) for c in COMPONENTS)
+                else:
+                    mean = dict((c, acc[ci] / self.count) for ci, c in enumerate(COMPONENTS))
+                    halfd = dict((c, half[ci]) for ci, c in enumerate(COMPONENTS))
+                # non-vacuity: the energy is not the same at every position of the call - the mean of the
+                # first half of the windows is not the mean of all of them
+                if any(not close(halfd[c], mean[c], rtol=1e-3, atol=1e-3 * float(np.max(mean[c])))
+                       for c in COMPONENTS):
+                    self.ctx.count("variant_first_half_mean_differs")
+                self.wmean[key] = mean
+            except Exception as e:      # noqa: BLE001
+                self.wmean[key] = e
+        return self.wmean[key]
 
     def diffuse_at_scale_one(self, taper, op):
         key = (taper, op)
@@ -309,12 +393,15 @@ class RootA:
 
     # -- reporting -------------------------------------------------------------
     def mark(self, case):
-        return dict(part="A", fixed=self.fixed, case=case)
+        return dict(part=self.part, fixed=self.fixed, case=case)
 
     def viol(self, key, case, **kw):
         detail = dict(case=case, fixed=self.fixed, sigset=SIGSETS[self.sigs],
-                      construction="window i = signal triple rotated by i, gain (1+i/2)*scale; "
-                                   "signals from hvmc.alphabets.signal(name, L)")
+                      construction="window i = signal triple rotated by i, gain g(i)*scale, g = "
+                                   + {"ramp": "1+i/2", "equal": "1",
+                                      "loud_tail": "10 for the last max(1, count//7) windows, else 1",
+                                      "loud_head": "10 for the first max(1, count//7) windows, else 1"}[self.profile]
+                                   + "; signals from hvmc.alphabets.signal(name, L)")
         detail.update(kw.pop("detail", {}))
         self.ctx.violation(key, self.root, detail=detail, **kw)
 
@@ -394,10 +481,11 @@ class RootA:
             sig.append("%.9g" % lhs)
             if abs(lhs - rhs) > RTOL * total:
                 ok = False
-                self.viol(f"C17:process(psd):{'single-window' if self.count == 1 else 'multi-window'}:parseval",
+                self.viol(f"C17:process(psd):{self.cls}:parseval",
                           case, expected=rhs, observed=lhs,
                           detail=dict(component=c, n=n, df=df,
-                                      terms=[RP.parseval_terms(win[ci].tolist(), w, n) for win in windows]),
+                                      terms=[RP.parseval_terms(win[ci].tolist(), w, n)
+                                             for win in windows[:MANY]]),
                           explanation=f"{c}: sum over 0<f<Nyquist of PSD*df = {lhs!r}, time-domain "
                                       f"bookkeeping of the tapered window(s) gives {rhs!r}")
             # non-vacuity: deliberately wrong normalisations must differ somewhere
@@ -419,19 +507,20 @@ class RootA:
             return
         # (2) Welch: several windows -> mean of the single-window PSDs
         if self.count > 1 or self.always_welch:
-            singles = [self.single_window(i, taper, scale) for i in range(self.count)]
-            bad = [s for s in singles if isinstance(s, Exception)]
-            if bad:
-                self.raised(case, bad[0], "single-window call")
+            means = self.welch_mean(taper, scale, nb)
+            if isinstance(means, Exception):
+                self.raised(case, means, "single-window call")
             else:
                 for c in COMPONENTS:
-                    stack = [s[c] for s in singles]
-                    mean = RP.mean_of(stack) if nb <= 2048 else np.sum(stack, axis=0) / len(stack)
+                    mean = means[c]
                     top = float(np.max(mean))
                     ctx.count("welch_compared")
+                    if self.count > MANY:
+                        ctx.count("many_windows_welch_compared")
                     if not close(amps[c], mean, rtol=RTOL, atol=1e-15 * top):
                         k = int(np.argmax(np.abs(amps[c] - np.asarray(mean))))
-                        self.viol("C17:process(psd):multi-window:welch-mean", case,
+                        self.viol("C17:process(psd):%s:welch-mean"
+                                  % ("many-windows" if self.count > MANY else "multi-window"), case,
                                   expected=dict(bin=k, value=float(mean[k])),
                                   observed=dict(bin=k, value=float(amps[c][k])),
                                   detail=dict(component=c, n=n),
@@ -615,6 +704,22 @@ def run_root_a(root, ctx, tier):
     r = RootA(root, ctx)
     for case in sub_cases(tier_space(SPACE_A, root["tier"]), ROOT_DIMS_A, root["fixed"], root["k"]):
         r.case(case)
+
+
+def space_e(tier):
+    s = dict(SPACE_E)
+    if tier != "thorough":
+        s["count"] = s["count"][:5]
+        s["fft"] = s["fft"][:1]         # the 32768-point transforms of 300+ windows: thorough tier only
+    return s
+
+
+def run_root_e(root, ctx, tier):
+    r = RootA(root, ctx)
+    before = ctx.counters["validated"]
+    for case in sub_cases(space_e(root["tier"]), ROOT_DIMS_E, root["fixed"], root["k"]):
+        r.case(case)
+    ctx.count("many_windows_validated", ctx.counters["validated"] - before)
 
 
 # ---------------------------------------------------------------------------
@@ -1268,11 +1373,12 @@ def roots(tier, seed):
     k = None if tier == "thorough" else K_QUICK
     return (_roots_of(tier_space(SPACE_A, tier), ROOT_DIMS_A, "A", tier, k)
             + _roots_of(SPACE_B, ROOT_DIMS_B, "B", tier, k)
+            + _roots_of(space_e(tier), ROOT_DIMS_E, "E", tier, K_E[tier])
             + _history_roots(tier))
 
 
 def run_root(root, ctx, tier):
-    {"A": run_root_a, "B": run_root_b, "C": run_root_c, "D": run_root_d}[root["part"]](root, ctx, tier)
+    {"A": run_root_a, "B": run_root_b, "C": run_root_c, "D": run_root_d, "E": run_root_e}[root["part"]](root, ctx, tier)
 
 
 def warm():
@@ -1289,6 +1395,9 @@ NONVACUITY = ("variant_no_taper_norm_differs", "variant_div_n_differs",
               "variant_sum_not_mean_differs", "variant_identity_differs", "analytic_compared",
               "explicit_compared", "welch_compared", "scale_compared",
               "diffuse_scale_invariance_compared",
+              # part E: calls with hundreds of windows were judged (Parseval + Welch) and the energy did
+              # depend on the position in the call
+              "many_windows_validated", "many_windows_welch_compared", "variant_first_half_mean_differs",
               # parts C / D: histories were judged, the stale-taper normalisation would have differed,
               # refused interludes were refused, an FFT length written back by an earlier use was met
               "history_validated", "variant_stale_taper_norm_differs", "refused_calls",
@@ -1325,6 +1434,12 @@ def describe(tier):
                "(the object | its deepcopy) and whether a refused call lies in between; the last use of every "
                "history is judged by the oracles of A / B of its configuration (auxiliary PSDs from fresh "
                "settings objects with the FFT length the judged call reports); the sets are prefix closed"
+             + "; E = part A's cases and oracles for calls with MANY windows (counts around 256 and 512) crossed "
+               "with the distribution of the energy over the positions in the call (ramp | loud last seventh | "
+               "loud first seventh | equal), every case within %d deviations from the first value of each "
+               "dimension of space_E; the Welch reference is the streamed mean of the PSDs of the same windows "
+               "processed one at a time, the Parseval reference the mean of the time-domain bookkeeping of "
+               "every window" % K_E[tier]
              + "; a case is non-trivial/distinct by its (part, dimension values) and counted when every "
                "comparison of that case was made against the reference",
         bounds=dict(space_A={d: v for d, v in sa.items()}, space_B=SPACE_B,
@@ -1332,6 +1447,8 @@ def describe(tier):
                     space_C=dict(space_c("psd", tier), out=OUT_C), manner_C=MANNER_C,
                     space_D=space_d(tier), step_dims_D=step_dims_d(tier), manner_D=MANNER_D,
                     history_deviation_bounds=HIST[tier], histories=history_bounds(tier),
+                    space_E=space_e(tier), profiles_E=sorted(PROFILES), deviation_bound_E=K_E[tier],
+                    size_E=product.size(space_e(tier), K_E[tier]),
                     rtol=RTOL),
         exhaustive=True,
         assumptions=[
@@ -1353,6 +1470,8 @@ def describe(tier):
             "request that length; only the last use of a history is judged (hvsrpy is deterministic and every "
             "proper prefix is a history of the enumerated set or a case of A / B); a history whose earlier use "
             "raises is dropped and counted (history_prefix_raised)",
+            "part E: window counts up to 513 of 16 / 33 samples stand for 'many windows' (a bound of the check, "
+            "not of the statement); with fft_settings=None the transform has 32768 points as in production use",
             "amplitude scales 1e-12 .. 1e9: squares stay within 1e-24 .. 1e18 times the O(1) signal power, i.e. "
             "no underflow/overflow in double precision; every tolerance is relative to the power of the case, so "
             "an absolute floor or threshold in the PSD / diffuse-field path is a violation, not a tolerance",
